@@ -383,8 +383,9 @@ func (cl *Cluster) topoLine(n *Node) string {
 }
 
 func (cl *Cluster) acceptLoop(n *Node) {
+	ln := n.ln
 	for {
-		c, err := n.ln.AcceptTCP()
+		c, err := ln.AcceptTCP()
 		if err != nil {
 			return
 		}
@@ -901,6 +902,39 @@ func (cl *Cluster) CloseConns(name string, onlyData bool) int {
 		nc.c.Close()
 	}
 	return len(victims)
+}
+
+// SetDown takes a node off the network (its listener stops accepting, its connections are closed) or brings it back
+// on the same address.
+func (cl *Cluster) SetDown(name string, down bool) error {
+	cl.mu.Lock()
+	n := cl.byName[name]
+	cl.mu.Unlock()
+	if n == nil {
+		return fmt.Errorf("no node %s", name)
+	}
+	if down {
+		if n.ln != nil {
+			n.ln.Close()
+			n.ln = nil
+		}
+		cl.CloseConns(name, false)
+		return nil
+	}
+	if n.ln != nil {
+		return nil
+	}
+	var err error
+	for k := 0; k < 50; k++ {
+		var ln net.Listener
+		if ln, err = net.Listen("tcp", n.Addr); err == nil {
+			n.ln = ln.(*net.TCPListener)
+			go cl.acceptLoop(n)
+			return nil
+		}
+		time.Sleep(20 * time.Millisecond)
+	}
+	return err
 }
 
 // Owes reports whether any open data connection still has unanswered commands.
